@@ -698,6 +698,18 @@ func (t *Topic) handleLeaveRequest(msg *ClientComMessage, sess *Session) {
 		if err != nil {
 			// Group topic cannot be addressed as channel unless channel functionality is enabled.
 			sess.queueOut(ErrNotFoundReply(msg, now))
+			return
+		}
+
+		s := sess
+		if sess.multi != nil {
+			s = sess.multi
+		}
+		if pssd, ok := t.sessions[s]; ok && pssd.isChanSub != asChan && !msg.Leave.Unsub {
+			// Cannot address non-channel subscription as channel and vice versa.
+			// Check it before the session is detached: a rejected request must have no effect.
+			sess.queueOut(ErrNotFoundReply(msg, now))
+			return
 		}
 	}
 
